@@ -21,6 +21,9 @@ PROP_SCENARIOS = {
 }
 
 
+FOCUSED = {"C12", "C08"}
+
+
 def search(pid, failed_items, repo, seed, budget_s=90, n_seeds=400, procs=12):
     """parallel bounded search: `procs` child processes, each with its own seed range"""
     want = [it["obligation"] for it in failed_items]
@@ -63,7 +66,12 @@ def run_scenarios(pid, repo, seed, budget_s, n_seeds, want=(), stop_at_first=Tru
     from pyvc import native_scenarios as NS
     S = cli.load_spec()
     mon = Monitor(S, repo)
-    mon.install()
+    if pid in FOCUSED:
+        # scheduler-level properties: install only the monitors that carry the property (the executor's own contracts
+        # are exercised by the other properties' runs), which makes a scenario ~20x cheaper
+        mon.install([q for q, c in S.fns.items() if pid in c.owners or any(pid in (t or "") for t in [str(c.native_ensures), str(c.ensures)])])
+    else:
+        mon.install()
     t0 = time.time()
     hits = []
     names = scenarios or PROP_SCENARIOS.get(pid, list(NS.SCENARIOS))
